@@ -36,3 +36,39 @@ _registered = register_type("mc_fwd", Fwd)
 def wrap(inner):
     from d42 import schema
     return schema.mc_fwd(inner)
+
+
+# Two more user-defined types, declared the documented way with the *plain* Props class: they
+# share one Props class, differ only in their Python class (C15: equality must tell them apart).
+class NumLike(CustomSchema[Props]):
+    def __represent__(self, visitor: Any, *, indent: int = 0, **kwargs: Any) -> str:
+        return "schema.mc_num"
+
+    def __generate__(self, visitor: Any, **kwargs: Any) -> Any:
+        return 1
+
+    def __validate__(self, visitor: Any, *, value: Any = Nil, path: Any = Nil, **kwargs: Any) -> Any:
+        from d42 import schema
+        return schema.int.__accept__(visitor, value=value, path=path, **kwargs)
+
+    def __substitute__(self, visitor: Any, *, value: Any = Nil, **kwargs: Any) -> Any:
+        return self
+
+
+class TextLike(CustomSchema[Props]):
+    def __represent__(self, visitor: Any, *, indent: int = 0, **kwargs: Any) -> str:
+        return "schema.mc_text"
+
+    def __generate__(self, visitor: Any, **kwargs: Any) -> Any:
+        return "a"
+
+    def __validate__(self, visitor: Any, *, value: Any = Nil, path: Any = Nil, **kwargs: Any) -> Any:
+        from d42 import schema
+        return schema.str.__accept__(visitor, value=value, path=path, **kwargs)
+
+    def __substitute__(self, visitor: Any, *, value: Any = Nil, **kwargs: Any) -> Any:
+        return self
+
+
+register_type("mc_num", NumLike)
+register_type("mc_text", TextLike)
